@@ -194,6 +194,15 @@ def run_auto_small(unit, rng, ctx):
     vib = float(TrajectoryMetrics(traj.filter('Li')).vibration_amplitude())
     r0 = 2 * vib
     site_frac = np.mod(anchors + (gen.random_unit_vectors(rng, nanch) * (r0 * rng.uniform(0.6, 1.3, size=(nanch, 1)))) @ inv, 1)
+    if rng.uniform() < 0.15:
+        # a site listed twice (the same position, or the same position one lattice vector away: a face site given
+        # at x = 0 and at x = 1): the spheres coincide, no non-overlapping radius exists
+        dup = site_frac[int(rng.integers(nanch))].copy()
+        if rng.integers(2):
+            dup[int(rng.integers(3))] += float(rng.choice([-1.0, 1.0]))
+        site_frac = np.vstack([site_frac, dup])
+        nanch += 1
+        ctx.count('site_sets_listing_a_position_twice')
     dmin = float(np.min(geom.min_image(m, site_frac, site_frac)[np.triu_indices(nanch, 1)]))
     if dmin < 2 * r0:
         r_exp = 0.5 * dmin - 0.005
